@@ -7,12 +7,12 @@ Require Import BFL.Ops BFL.C07_Model BFL.C06_Model.
 Require Import Extraction ExtrOcamlBasic.
 Import ListNotations.
 
-Definition c06_trace (S : SOps) (Nf : nat) (st : @sis_state S (list (T S))) (evs : list (@event S (list (T S))))
-  : list (@sis_state S (list (T S))) := sis_trace Nf st evs.
+Definition c06_trace (S : SOps) (Nf : nat) (st : @sis_state S (list (T S)) nat) (evs : list (@event S (list (T S)) nat))
+  : list (@sis_state S (list (T S)) nat) := sis_trace Nf st evs.
 
 (* per step: the corrected set before the resampling test, the decision, the state after the step *)
-Fixpoint c06_trace_full (S : SOps) (Nf : nat) (st : @sis_state S (list (T S))) (evs : list (@event S (list (T S))))
-  : list (@sset S (list (T S)) * bool * @sis_state S (list (T S))) :=
+Fixpoint c06_trace_full (S : SOps) (Nf : nat) (st : @sis_state S (list (T S)) nat) (evs : list (@event S (list (T S)) nat))
+  : list (@sset S (list (T S)) nat * bool * @sis_state S (list (T S)) nat) :=
   match evs with
   | [] => []
   | ev :: r =>
